@@ -109,7 +109,8 @@ def fixFn (a : Ex) (f : Fn) : Fn :=
   | f => f
 
 def genEx : Nat → Gen Ex
-  | 0 => do pure (litEx (← genMixedSet 2))
+  | 0 => do
+    if (← chance 1 2) then pure (litEx (← genBigSet)) else pure (litEx (← genMixedSet 2))
   | d + 1 => do
     let r ← rand 14
     match r with
@@ -133,25 +134,112 @@ def genBigLit : Gen Ex := do
   let r ← rand 3
   match r with
   | 0 => do
-    let n ← rand 5
-    let ks ← genList (n + 3) (genVal 1)
+    let n ← rand 8
+    let ks ← genList (n + 10) (genVal 1)
     let ks := Lit.dedupBy (fun (v : Val) => den v.rep) ks
     let vs ← genList ks.length (genVal 1)
     let kvs := ks.zip vs
     pure (.lit ("{" ++ ", ".intercalate (kvs.map (fun p => p.1.src ++ ": " ++ p.2.src)) ++ "}")
       (if kvs.isEmpty then .empty else .dict (kvs.map (fun p => [p.1.rep, p.2.rep]))))
   | 1 => do
-    let names := ["zeta", "a", "m", "b", "k1", "y", "x", "c", "k2", "zz"]
-    let n ← rand 6
+    let names := ["zeta", "a", "m", "b", "k1", "y", "x", "c", "k2", "zz", "d", "e", "f", "g", "h", "n", "o", "p"]
+    let n ← rand 7
     let sh ← shuffle names
-    let ns := sh.take (n + 4)
+    let ns := sh.take (n + 12)
     let vs ← genList ns.length (genVal 1)
     pure (litEx (tupVal (ns.zip vs)))
   | _ => do
-    let m ← rand 4
-    let rows ← genList (m + 3) (genList 3 (genVal 1))
+    let m ← rand 6
+    let rows ← genList (m + 12) (genList 3 (genVal 1))
     let ns := ["c", "a", "b"]
     pure (litEx (setVal (rows.map (fun row => tupVal (ns.zip row)))))
+
+/-! ## big collections: frozen keeps up to about eight items in insertion order, so the enumeration order differs
+between processes only from roughly nine members upward -/
+
+def bigPool : List Val :=
+  let n (i : Int) := ofLitVal (.num i)
+  (List.range 9).map (fun i => n (Int.ofNat i - 2)) ++
+  (List.range 6).map (fun i => ofLitVal (.str 0 [97 + i])) ++
+  [ofLitVal (.str 1 [97]), ofLitVal (.str (-1) [98, 99]), ofLitVal (.str 0 [97, 98])] ++
+  (List.range 4).map (fun i => ofLitVal (.tup [("a", .num (Int.ofNat i))])) ++
+  (List.range 3).map (fun i => ofLitVal (.tup [("b", .num (Int.ofNat i))])) ++
+  (List.range 3).map (fun i => ofLitVal (.arr 0 [some (.num (Int.ofNat i))])) ++
+  (List.range 3).map (fun i => ofLitVal (.set [.num (Int.ofNat i)])) ++
+  [ofLitVal (.arr 1 [some (.num 0)]), ofLitVal (.tup []), ofLitVal (.set []), ofLitVal .tt,
+   ofLitVal (.dict [(.num 1, .num 2)]), ofLitVal (.dict [(.str 0 [97], .num 1)]), ofLitVal (.bytes 0 [1, 2]),
+   ofLitVal (.bytes 1 [1]), negVal (ofLitVal (.set [.num 1])), negVal (ofLitVal (.tup [("a", .num 1)])),
+   ofLitVal (.tup [("a", .num 1), ("b", .num 2)]), ofLitVal (.set [.num 1, .str 0 [97]]),
+   ofLitVal (.rel ["a", "b"] [[.num 1, .num 2]])]
+
+/-- a set with 12–18 members of mixed kinds -/
+def genBigSet : Gen Val := do
+  let n ← rand 7
+  let sh ← shuffle bigPool
+  pure (setVal (sh.take (n + 12)))
+
+/-- numbers and plain strings only (they can be written as items of a set pattern), 12–16 of them -/
+def numStrPool : List Val :=
+  (List.range 10).map (fun i => ofLitVal (.num (Int.ofNat i))) ++ (List.range 8).map (fun i => ofLitVal (.str 0 [97 + i, 98]))
+
+def genRows : Gen (List (Int × Int)) := do
+  let n ← rand 5
+  genList (n + 12) (do pure ((← randInt 0 2), (← randInt 0 3)))
+
+def mkPgCase (id stratum : String) (p : Pg) (kf : Bool) : Case :=
+  let o := Impl.obs (Impl.evalPg p)
+  { id := id, cls := if kf then "KF-superimposed" else "good", kind := "run", stratum := stratum, model := o, spec := o,
+    payload := [p.src] }
+
+def genPgCase (idx : Nat) : Gen Case := do
+  let r ← rand 12
+  match r with
+  | 0 | 1 | 2 | 3 => do
+    -- set patterns over 12–16 numbers/strings plus (sometimes) one other value
+    let n ← rand 5
+    let sh ← shuffle numStrPool
+    let base := sh.take (n + 12)
+    let odd ← pick [ofLitVal (.tup [("a", .num 1)]), ofLitVal (.set [.num 1]), ofLitVal (.arr 0 [some (.num 5)]), ofLitVal (.num 77)]
+    let withOdd ← chance 2 3
+    let members ← shuffle (if withOdd then odd :: base else base)
+    let s : Ex := litEx (setVal members)
+    let s ← if (← chance 1 4) then pure (Ex.union s (litEx (setVal (members.take 3)))) else pure s
+    let shape ← rand 6
+    let lits (vs : List Val) : List (String × Rep) := vs.map (fun v => (v.src, v.rep))
+    let blits ← shuffle base
+    let mode ← rand 3
+    let mode := if mode == 1 then 1 else if mode == 2 then 2 else 0
+    let p : Pg := match shape with
+      | 0 => .setpat [] mode s                                          -- `{a}` against many items
+      | 1 => .setpat (lits blits) mode s                                -- all the literals: one (or no) item left
+      | 2 => .setpat (lits (blits.drop 1)) mode s                       -- two (or one) left
+      | 3 => .setpat (lits (blits.take 3)) mode s                       -- many left
+      | 4 => .setpat (lits (blits.take 4) ++ [("99", .num 99)]) mode s  -- a literal that is not an item
+      | _ => .setpat (lits (blits.drop 2)) 1 s                          -- the rest: a small set
+    pure (mkPgCase s!"C07-p{idx}" s!"setpat/{shape}/m{mode}" p false)
+  | 4 | 5 | 6 => do
+    let rows ← genRows
+    let three ← chance 1 2
+    let post ← rand 3
+    let c ← randInt 0 3
+    pure (mkPgCase s!"C07-p{idx}" s!"rank/{if three then 3 else 2}attrs/post{post}" (.rank rows three post c) false)
+  | 7 => do
+    let rows ← genRows
+    let mode ← rand 2
+    pure (mkPgCase s!"C07-p{idx}" s!"orderby-attr/{mode}" (.orderbyAttr rows mode) false)
+  | 8 => do
+    let rows ← genRows
+    let mode ← rand 2
+    pure (mkPgCase s!"C07-p{idx}" s!"nest/{mode}" (.nest rows mode) false)
+  | 9 => do
+    let s ← genBigSet
+    let f ← pick [Fn.const 1, Fn.ident, Fn.single, Fn.arr1]
+    pure (mkPgCase s!"C07-p{idx}" "orderby-keys" (.orderbyKeys (litEx s) f) false)
+  | _ => do
+    let s ← genBigSet
+    let op ← rand 2
+    let f ← pick [Fn.ident, Fn.single, Fn.arr1, Fn.const 0]
+    pure (mkPgCase s!"C07-p{idx}" (if op == 0 then "max" else "min") (.reduce (litEx s) op f) false)
 
 def mkCase (id stratum : String) (e : Ex) : Case :=
   let o := Impl.obs (Impl.evalUnder (fun l => l) e)
@@ -191,9 +279,11 @@ def gen (seed n : Nat) (_thorough : Bool) : List Case := Id.run do
                     payload := [] } : Case) :: corpus.reverse
   for i in [0:n] do
     let (c, _) := (do
-      let big ← chance 1 5
-      let e ← if big then genBigLit else genEx (if i % 3 == 0 then 2 else 1)
-      pure (mkCase s!"C07-{i}" (exName e) e)).run (seedOf seed (700000 + i))
+      if i % 3 == 1 then genPgCase i
+      else
+        let big ← chance 1 5
+        let e ← if big then genBigLit else genEx (if i % 3 == 0 then 2 else 1)
+        pure (mkCase s!"C07-{i}" (exName e) e)).run (seedOf seed (700000 + i))
     out := c :: out
   pure out.reverse
 
